@@ -208,7 +208,7 @@ def run(rep) -> None:
     rnd = random.Random(seed() * 1039 + 14)
     d = scratch("c14-")
     try:
-        jobs = [("enum", SIGMA, 2, 2, True)] + ([] if quick else [("enum", ["a", "A", "1", "-", " "], 2, 3, True)])
+        jobs = [("enum", SIGMA, 2, 2, True), ("enummenu", ["a"], 1, 3, True)] + ([] if quick else [("enum", ["a", "A", "1", "-", " "], 2, 3, True)])
         c09.prefetch(jobs, d)
         lists = []
         for job in jobs:
@@ -226,14 +226,16 @@ def run(rep) -> None:
             realk = None if vals is None else list(vals)
             if (realk is None) != (pred is None) or (realk is not None and realk != pred):
                 rep.drifted(mode="enum-keys", values=it["values"], model=pred, real=realk)
+        menu_lists = [it for it in lists if len(it["values"]) == 3 and any(v.lower().startswith("value") for v in it["values"])]
         special = [it for it in lists if it["pred"]["err"] or len({v.lower().strip(" -_") for v in it["values"]}) < len(it["values"]) or "" in it["values"]]
         pick = rnd.sample(special, min(len(special), 250 if quick else 4000)) + rnd.sample(lists, min(len(lists), 350 if quick else 6000))
+        pick += rnd.sample(menu_lists, min(len(menu_lists), 150 if quick else 720))
         todo = []
         for k, it in enumerate(pick):
             todo.append({"values": it["values"], "null": k % 3 == 0, "inline": k % 2 == 0})
         ints = [list(p) for n in (1, 2, 3) for p in itertools.permutations([-1, 0, 1, 2], n)]
         todo += [{"values": v, "null": i % 2 == 0, "inline": i % 3 == 0} for i, v in enumerate(ints)]
-        todo += [{"values": v, "null": False, "inline": False} for v in (["a", "a"], [1, 1], ["x"], [0], ["", "a"], ["A", "a"], ["a b", "a-b"], ["1a", "2b"], ["a", "b", "c"], ["true", "false", "null"], ["None", "True"])]
+        todo += [{"values": v, "null": False, "inline": False} for v in (["a", "a"], [1, 1], ["x"], [0], ["", "a"], ["A", "a"], ["a b", "a-b"], ["1a", "2b"], ["a", "b", "c"], ["true", "false", "null"], ['12"', "a"], ['say "hi"', "bye"], ["it's", "x"], ['"', "'"], ["a'b\"c", "d"], ["None", "True"])]
         build_and_run(rep, todo, d, False, "c")
         build_and_run(rep, todo, d, True, "l")
         consts(rep, d)
